@@ -141,6 +141,8 @@ class _PokTranslator(_util.OverrideableDataDesc):
         self.__signature__ = sig.replace(
             parameters=params,
             sources=_signatures.copy_sources(sig.sources, {self.func:self}))
+        # bound versions handed out so far were prepared from the old signature
+        self.insts.clear()
 
     def _sigtools__autoforwards_hint(self, func):
         ast = _util.get_ast(self.func)
